@@ -75,6 +75,13 @@ def build(rng):
     eqs = [dedup(gen_sig(rng, n, 2)) for _ in range(rng.randint(0, 1))]
     p = rng.choice([0, 1])
     q = rng.choice([1, 1, 2])
+    if gts and rng.random() < 0.12:
+        # a badly scaled constraint: one coefficient 2^-14, so that the products of the q-fold (q = 2) carry coefficients of size 2^-28 < 1e-8;
+        # a term with a small coefficient is a term (it is large where its exponent is)
+        g0 = gts[0]
+        k0 = rng.randrange(len(g0))
+        gts[0] = [(a, (Fraction(1, 2 ** 14) * (1 if c > 0 else -1)) if j == k0 else c) for j, (a, c) in enumerate(g0)]
+        q = 2
     return n, f, gts, eqs, p, q
 
 
